@@ -459,7 +459,7 @@ def weights(w4):
     return None if w4 is None else (np.asarray(w4, dtype=np.float64) / 4).astype(np.float32)
 
 
-def call_power(ps, case, I, w4, nthread, I2=None, w24=None):
+def call_power(ps, case, I, w4, nthread, I2=None, w24=None, same_object=False):
     cfg = case['cfg']
     n = cfg['nmesh']
     L = float(n * 2.0 ** cfg['cellexp'])
@@ -471,9 +471,14 @@ def call_power(ps, case, I, w4, nthread, I2=None, w24=None):
     if I2 is not None:
         kw['pos2'] = positions(case, I2)
         kw['w2'] = weights(w24)
+    pos = positions(case, I)
+    if same_object:
+        # the most natural way to ask for "the same particles as the second field": the very same arrays
+        kw['pos2'] = pos
+        kw['w2'] = kw['w']
     with warnings.catch_warnings():
         warnings.simplefilter('ignore')
-        return ps.calc_power(positions(case, I), L, **kw)
+        return ps.calc_power(pos, L, **kw)
 
 
 def table_cols(t):
@@ -595,6 +600,10 @@ def check_case(ctx, ps, case):
     track('cross=auto')
     report('with pos2 = pos differs from the auto power', 'c13:cross-auto', r)
     ctx.count('rel:cross=auto')
+    r = compare(base, call_power(ps, case, I, w4, 1, same_object=True), shot)
+    track('cross=auto(same array)')
+    report('with pos2 being the same array object as pos differs from the auto power', 'c13:cross-auto-same-object', r)
+    ctx.count('rel:cross=auto(same array)')
 
     # 5. mode counts, k and mu ranges, table shape do not depend on the particles
     other = call_power(ps, case, IB, wB4, 1)
